@@ -258,6 +258,24 @@ pub fn main(ctx: &Ctx) -> ! {
         }
         acc.outcomes.lock().unwrap().extend(local);
     });
+    // every byte value: all strings of length <= 2 over all 256 bytes (and length 3 in thorough), all chunkings
+    {
+        let all: Vec<u8> = (0u8..=255).collect();
+        let two = ctx.tier == Tier::Thorough;
+        all.par_iter().for_each(|&a| {
+            let mut local = BTreeSet::new();
+            utf8_case(ctx, &acc, &[a], &mut local);
+            for &b in &all {
+                utf8_case(ctx, &acc, &[a, b], &mut local);
+                if two || matches!(a, 0xC2 | 0xE0 | 0xED | 0xF0 | 0xF4) {
+                    for &c in &all {
+                        utf8_case(ctx, &acc, &[a, b, c], &mut local);
+                    }
+                }
+            }
+            acc.outcomes.lock().unwrap().extend(local);
+        });
+    }
     // long inputs: valid prefix of 100 bytes then every alphabet string of length <= 3 (buffer paths)
     let tails = enumerate_strings(&UTF8_ALPHABET, 3);
     tails.par_iter().for_each(|t| {
